@@ -677,6 +677,77 @@ def one_off(ctx):
                 ctx.violation("C14:class:%s" % label, "wrong class")
 
 
+class Team14(HasTraits):
+    """an object that is a member of a set (list, dict value) and also the
+    value of another trait: one object in the copy as well"""
+    chair = Instance(Node14)
+    members = Set(Instance(Node14))
+    roster = List(Instance(Node14))
+    by_name = Dict(Str, Instance(Node14))
+
+
+class Snap14(HasTraits):
+    """takes a clone of itself from a handler that a constructor keyword
+    fires (the object is not fully constructed yet)"""
+    x = Int
+    uid = UUID(can_init=True)
+    snaps = Any
+
+    def _x_changed(self):
+        if self.snaps is None:
+            self.snaps = []
+        self.snaps.append(self.clone_traits())
+
+
+def identity_cells(ctx):
+    for how in COPIES:
+        ctx.case({"part": "A2", "cell": "shared-member", "copy": how})
+        ctx.ev()
+        ctx.tr()
+        n = Node14(value=4, tags=["t"])
+        t = Team14(chair=n, members={n, Node14(value=5)}, roster=[n],
+                   by_name={"n": n})
+        try:
+            d = do_copy(t, how)
+        except Exception as e:
+            ctx.violation("C14:copy-raises:team:%s" % how.rstrip("012345"),
+                          "%s raised %r" % (how, e), copy=how)
+            continue
+        if how == "clone_shallow":
+            continue        # (shares by definition)
+        for where, coll in (("set", d.members), ("list", d.roster)):
+            if d.chair is n or any(x is n for x in coll):
+                ctx.violation(
+                    "C14:shared:team-%s:%s" % (where, how.rstrip("012345")),
+                    "the copy shares a Node with the original", copy=how)
+            elif not any(x is d.chair for x in coll):
+                ctx.violation(
+                    "C14:identity:%s:%s" % (where, how.rstrip("012345")),
+                    "in the original one object is both `chair` and a member "
+                    "of the %s; in the copy the %s holds a different (equal) "
+                    "object" % (where, where), copy=how)
+            else:
+                ctx.outcome("copy-checked")
+    # a clone taken while the source is still being constructed
+    ctx.case({"part": "A2", "cell": "clone-during-construction"})
+    ctx.ev()
+    ctx.tr()
+    import uuid
+    s1 = Snap14(x=3)
+    snap = s1.snaps[0]
+    if not snap.traits_inited():
+        ctx.violation("C14:not-inited:clone-during-construction",
+                      "a clone taken from a handler fired by a constructor "
+                      "keyword reports traits_inited() False for good")
+    try:
+        snap.uid = uuid.uuid4()
+        ctx.violation("C14:not-validating:clone-during-construction",
+                      "the write-once UUID of a clone taken during "
+                      "construction could be overwritten")
+    except TraitError:
+        ctx.outcome("readonly-stays-written")
+
+
 def shards(tier):
     out = [{"part": "A", "first": i} for i in range(len(EVENTS))]
     out.append({"part": "A0"})
@@ -691,6 +762,7 @@ def run_shard(ctx, shard, tier):
     if shard["part"] == "A0":
         run_history(ctx, [])
         one_off(ctx)
+        identity_cells(ctx)
         ctx.depth_completed = 0
         return
     if shard["part"] == "A":
